@@ -466,6 +466,16 @@ def r_count(F, engine, fn):
             elif nm == "read" and (nd.get("mrec") or "").startswith("std::basic_istream"):
                 deliveries.append(("istream", nd, fn.term(nd["obj"])))
     if not deliveries:
+        # the read may sit in a helper on the same object (`ReadAndReset(buffer, size)`): what matters is which stream it
+        # reads, because the count returned must be that stream's gcount()
+        for nd in fn.nodes:
+            if nd["k"] == "CXXMemberCallExpr" and "obj" in nd and fn.term(nd["obj"]) == ("this",):
+                for cal in engine.F.callees(nd):
+                    for x in cal.nodes:
+                        if x["k"] == "CXXMemberCallExpr" and x.get("fname") == "read" and (x.get("mrec") or "").startswith("std::basic_istream") \
+                                and cal.term(x["obj"])[0] == "mem" and cal.term(x["obj"])[1] == ("this",):
+                            deliveries.append(("istream", nd, cal.term(x["obj"])))
+    if not deliveries:
         raise AnalysisBroken("R-COUNT: no delivery primitive recognised in %s" % fn.qn)
     inst = fn.qn
     for kind, nd, t in deliveries:
